@@ -268,7 +268,8 @@ class Case:
                     # connection raises one: the bound grows with what the other connections have under way)
                     noisy = sum(1 for _, re in spec["conns"] if re == "dpa_output_pending") + \
                         2 * sum(1 for st_, _ in spec["conns"] if st_ == "ready_backlog")
-                    if it >= j + 4 + 10 * noisy:
+                    crowd = 3 * len(spec["conns"]) if len(spec["conns"]) > 3 else 0    # DPR queued, DPA in, close: a notice each
+                    if it >= j + 4 + 10 * noisy + crowd:
                         if not self.sp[i].node_sock.closed and h.now - t0 < spec["wait_timeout"] - 1:
                             self.witness("shutdown.connection_not_closed_after_dpa", {"conn": i, "iterations": it - j})
                         del dpa_at[i]
@@ -554,6 +555,14 @@ def run_shard(spec):
         for b in STATES:
             cases.append(([(a, "prompt"), (b, "never")], True, False, False, 4))
             cases.append(([(a, "late"), (b, "close")], False, True, False, 8))
+    # scale: dozens of connections, whose DPAs arrive within the same pass of the node's loop
+    many = [[("ready", "prompt")] * 50, [("ready", "prompt")] * 120,
+            [("ready", "prompt"), ("waiting_dwa", "prompt"), ("ready", "late"), ("ready", "dpa_then_close")] * 16,
+            [("ready", "prompt")] * 45 + [("ready", "never")] * 3 + [("disconnecting", "prompt")] * 2]
+    if spec["part"] < len(many):
+        # (the harness moves the clock by a second per pass while stop() waits: the wait timeout is sized in passes)
+        run.one(many[spec["part"]], spec["part"] == 3, False, False, 5000, None, (1, 2, 3, 12)[spec["part"]])
+        run.cov["cases_with_dozens_of_connections"] = run.cov.get("cases_with_dozens_of_connections", 0) + 1
     for i, c in enumerate(cases):
         if i % spec["parts"] != spec["part"]:
             continue
